@@ -309,14 +309,26 @@ static int child(const std::vector<std::string>& lines, double cpu_budget, int a
   it.it_value.tv_usec = static_cast<long>((cpu_budget - static_cast<long>(cpu_budget)) * 1e6);
   setitimer(ITIMER_PROF, &it, nullptr);
 
+  dup2(1, 2); // sanitizer reports and SimGrid's own messages stay next to the platform they belong to
   do_install_signal_handlers = false;
   sg4::Engine e(&argc, argv);
   Builder b;
-  b.e = &e;
+  b.e         = &e;
+  bool sealed = false;
   for (auto const& l : lines) {
     auto t = split(l);
     if (t.empty())
       continue;
+    bool is_query = t[0] == "Q" || t[0] == "Q2" || t[0] == "LQ" || t[0] == "LQA" || t[0] == "LINKS";
+    if (is_query && not sealed) { // the API contract: routes are asked on a sealed platform (Engine::run() does this)
+      set_query("SEAL", "platform", "", "");
+      try {
+        e.seal_platform();
+      } catch (const std::exception& ex) {
+        printf("BX %s ## seal_platform\n", oneline(ex.what()).c_str());
+      }
+      sealed = true;
+    }
     if (t[0] == "Q") { // all ordered host pairs (or Q src dst)
       if (t.size() == 3) {
         query_route(sg4::Host::by_name(t[1]), sg4::Host::by_name(t[2]));
